@@ -187,6 +187,8 @@ func VP_C03_Record() {
 	vpAssert(s.Write(&w) == nil, "Write succeeds")
 	txt, err := s.MarshalText()
 	vpAssert(err == nil && bytes.Equal(txt, w.b), "MarshalText and Write produce identical bytes")
+	(&SAM{Qname: "zz", Rname: "yy", Cigar: "*", Rnext: "*", Seq: "TTTT", Qual: "!!!!"}).MarshalText()
+	vpAssert(bytes.Equal(txt, w.b), "bytes returned by MarshalText are not disturbed by a later MarshalText call")
 	nl := 0
 	for _, c := range w.b {
 		if c == '\n' {
